@@ -270,7 +270,12 @@ def run(tier):
             c.update({'implementation_bends': v, 'true_minimum_bends': sv, 'brute_force_minimum': bfs,
                       'replay': 'harness/c05_bends.cpp bends %d : line "%d %d %d %d %d %d %d"; Avoid::bends(Point(%g,%g), %d, Point(%g,%g), %d)'
                                 % ((R,) + key + (c['curr'][0], c['curr'][1], cd, c['dest'][0], c['dest'][1], dd))})
-            if v > sv:
+            if v == -98:
+                c['what'] = 'Avoid::bends raised an assertion failure (a COLA_ASSERT in bends / dirLeft / dirRight / dirReverse was reached)'
+                if spec_viol < 3:
+                    res.violation(c)
+                spec_viol += 1
+            elif v > sv:
                 c['what'] = ('the bend-count estimate EXCEEDS the true minimum number of bends (a path of the class with %d bends exists: '
                              'BendsSpec.witness)' % sv)
                 if spec_viol < 3:
@@ -297,7 +302,7 @@ def run(tier):
 
     # ---------------------------------------------------------------- V-run on real routes
     rng = C.SplitMix64(res.seed)
-    nscenes = 150 if tier == 'quick' else 600
+    nscenes = 1200 if tier == 'quick' else 5000
     route_stats = {'routes': 0, 'bends_hist': {}, 'by_penalty': {}, 'scenes': 0, 'with_detour': 0}
     route_viol = 0
     machinery = []
@@ -329,7 +334,7 @@ def run(tier):
             obj = {'what': kind, 'rectangles_x0y0x1y1': r['boxes'], 'src': r['src'], 'dst': r['dst'], 'segmentPenalty': pen,
                    'route': r.get('route_text'), 'route_cost': r.get('impl_cost'), 'oracle_cost': r.get('oracle_cost'),
                    'oracle_path': r.get('oracle_path'), 'error': r.get('error'),
-                   'replay': 'echo "S %d %d 1\\n%s\\n%d %d %d %d\\nE" | build/bin/c05_bends-* routes   (orthogonal routing, idealNudgingDistance 0, route())'
+                   'replay': 'printf "S %d %d 1\\n%s\\n%d %d %d %d 15 15\\nE\\n" | build/bin/c05_bends-* routes   (orthogonal routing, idealNudgingDistance 0, route())'
                              % (pen, len(r['boxes']), '\\n'.join('%d %d %d %d' % b for b in r['boxes']), r['src'][0], r['src'][1], r['dst'][0], r['dst'][1])}
             if no_input:
                 machinery.append(obj)
@@ -366,3 +371,31 @@ def warm():
     build_harness_retry('c05_bends', ['libavoid'], 'exc')
     C.ocaml_build('c05spec', 'C05spec.v', 'c05_spec_driver.ml', 'c05_spec.ml')
     C.ocaml_build('c05gen', 'C05gen.v', 'c05_gen_driver.ml', 'c05_gen.ml')
+
+
+META = {
+    'property_id': PID,
+    'level_claimed': {
+        'category': 'proof',
+        'text': 'Coq theorems over the Gallina definitions that tools/cpp2v.py regenerates from makepath.cpp on every run '
+                '(orthogonalDirection, orthogonalDirectionsCount, dirLeft/Right/Reverse, bends, CostDirection*): bends() equals a '
+                'hand-written closed-form minimum bend count for all rational curr != dest and all 16 pairs of single directions; '
+                'it is a lower bound on the bends of EVERY orthogonal path with positive-length segments that never doubles back '
+                '(state semantics of the search: may turn at once at curr, last turn may be made at dest), hence in every scene '
+                '(obstacles only remove paths); it is attained in the free plane by a path with perpendicular consecutive segments; '
+                'the COLA_ASSERTs of bends/dir* are unreachable; the arithmetic of estimatedCostSpecific (manhattan + penalty * min over '
+                'allowed arrival directions, and the initial-point branch) is admissible.  "The search finds the minimum-cost route" is '
+                'PARTIAL: a verified route checker (axis-parallel, obstacle-avoiding, endpoints, cost) and a grid-search oracle proved '
+                'SOUND (its cost is realised by a checked path) are run against the real raw routes; the oracle\'s optimality, the Hanan-grid '
+                'fact and the A* / scan-line graph are validated by cost equality only.',
+        'design_ref': 'DESIGN.md 5.5'},
+    'level_note': 'Trusted: Coq kernel; cpp2v.py + clang JSON AST (validated every run by the exhaustive three-way sweep compiled Avoid::bends / '
+                  'extracted Gen / extracted closed form + brute-force BFS over {-2..2}^2 x 16 direction pairs x 3 base points); exact-rational model of '
+                  'binary64 comparisons; extraction (ExtrOcamlBasic) and the OCaml/C++ drivers. estimatedCostSpecific is a hand model of '
+                  'makepath.cpp:795-853 calling the generated functions (not translated: it reads ConnRef/VertInf). Not proved: optimality of the '
+                  'grid oracle and of the A* search (C05_grid_oracle_partial). Not covered: pin direction restrictions (libavoid treats visDirs of '
+                  'free-floating endpoints as visibility hints, not hard constraints, so no oracle for them is run); touching rectangles are outside the '
+                  'generated domain (the oracle blocks shared sides: interior of the union). A bends() value BELOW the closed form is reported as a broken '
+                  'equality proof without failing input (it is still admissible); a value above it, or an assertion, is a violation with the input.',
+    'technique': 'Coq proof over cpp2v-regenerated Gallina + exhaustive sweep + verified checker / sound grid oracle on real raw routes',
+}
